@@ -47,6 +47,18 @@ func esc(w string) string {
 
 func genQuote(n int) {
 	fields := []string{"f", "a_1", "été"}
+	// the same text twice in one query, first bare (where it is a number, a pattern, an escaped word) and then quoted (where it is
+	// that text, verbatim), in both orders: what a quoted value denotes does not depend on the other operands
+	for _, w := range []string{"5", "007", "-3", "2.5", "1e3", "x*", "?y", `a\:b`, "NaN", "b", "10", "0"} {
+		for _, f := range fields {
+			emitQ("g:"+w+" AND "+f+`:"`+w+`"`, "", "rel=C08c;w="+hx(w))
+			emitQ(f+`:"`+w+`" OR g:`+w, "", "rel=C08c;w="+hx(w))
+			emitQ(w+" "+f+`:"`+w+`"`, "d", "rel=C08c;w="+hx(w))
+			if !strings.ContainsAny(w, `*?\`) {
+				emitQ("g:["+w+" TO "+w+"] AND "+f+`:("`+w+`" OR "`+w+`")`, "", "rel=C08c;w="+hx(w))
+			}
+		}
+	}
 	for i := 0; i < n; i++ {
 		w := randText(5, quoteAlphabet)
 		if !utf8.ValidString(w) {
@@ -143,6 +155,44 @@ func genLex(n int) {
 		}
 		// the same bytes through the whole pipeline (C16: a lexical error makes Parse fail; C01: no panic)
 		emitQ(in, pick([]string{"", "d"}), "src=bytes")
+	}
+	// texts made of WORDS, some of which are related to an earlier word of the same text (the same word again, the same in another
+	// letter case, quoted, a prefix, with one more character): what the lexer returns for a word must not depend on the words before it
+	for i := 0; i < n/4; i++ {
+		k := 2 + rng.Intn(5)
+		words := []string{}
+		for j := 0; j < k; j++ {
+			if j > 0 && rng.Intn(2) == 0 {
+				words = append(words, varyWord(words[rng.Intn(len(words))]))
+				continue
+			}
+			switch rng.Intn(6) {
+			case 0:
+				words = append(words, pick(quotedWords))
+			case 1:
+				words = append(words, pick(intWords))
+			case 2:
+				words = append(words, pick([]string{"Hello", "title", "WORLD", "naïve", "body", "Straße", "AND", "or", "Not", "x_y_z", "abcd", "ABCD", "aBcD"}))
+			default:
+				words = append(words, pick(plainWords))
+			}
+		}
+		sep := func() string {
+			return pick([]string{" ", " ", " ", " : ", ":", " AND ", " OR ", "  ", "\t", "(", ") ", " -", " +", ", ", "% ", "'s ", "; ", " & "})
+		}
+		var b strings.Builder
+		for j, w := range words {
+			if j > 0 {
+				b.WriteString(sep())
+			}
+			b.WriteString(w)
+		}
+		in := b.String()
+		emitL(in, strings.Repeat("N", len(in)+3))
+		if rng.Intn(2) == 0 {
+			emitL(in, script(in))
+		}
+		emitQ(in, pick([]string{"", "d"}), "src=words")
 	}
 }
 
@@ -369,6 +419,9 @@ func genCustom(n int) {
 			ov = append(ov, fmt.Sprint(1+rng.Intn(19)))
 		}
 		spec := "rm=" + strings.Join(rm, ",") + ";ov=" + strings.Join(ov, ",")
+		if i%5 == 0 { // the function of one operator returns the empty string
+			spec += ";em=" + fmt.Sprint(1+rng.Intn(19))
+		}
 		if i%23 == 0 {
 			spec = pick([]string{"nil=1", "empty=1"}) // a driver with no table / an empty table
 		}
@@ -380,7 +433,15 @@ func genCustom(n int) {
 		if i%16 == 0 {
 			emitD("J:"+pick([]string{`{"left":"a","operator":"EQUALS","right":"b*"}`, `{"left":"a","operator":"EQUALS","right":"/r/"}`,
 				`{"left":{"left":"a","operator":"EQUALS","right":"w?"},"operator":"NOT"}`, `{"left":"a","operator":"LIKE","right":"b*"}`,
-				`{"left":"a","operator":"IN","right":{"left":["x","y"],"operator":"LIST"}}`}), spec, "src=customjson")
+				`{"left":"a","operator":"IN","right":{"left":["x","y"],"operator":"LIST"}}`,
+				`{"left":"a","operator":"IN","right":{"left":["x","y*"],"operator":"LIST"}}`, `{"left":"a","operator":"IN","right":{"left":["y*","x"],"operator":"LIST"}}`,
+				`{"left":"a","operator":"IN","right":{"left":["x","/r/","z?"],"operator":"LIST"}}`, `{"left":"a","operator":"IN","right":{"left":[1,"x",2.5,"w*"],"operator":"LIST"}}`}), spec, "src=customjson")
+			// the same with the three leaf operators treated differently
+			for _, sp := range []string{"rm=;ov=12", "rm=12;ov=", "rm=;ov=11", "rm=13;ov=12", "rm=;ov=;em=12"} {
+				if rng.Intn(3) == 0 {
+					emitD("J:"+pick([]string{`{"left":"a","operator":"IN","right":{"left":["x","y*"],"operator":"LIST"}}`, `{"left":"a","operator":"IN","right":{"left":["y*","x","/r/"],"operator":"LIST"}}`}), sp, "src=customjson")
+				}
+			}
 		}
 	}
 }
@@ -552,6 +613,13 @@ var semDecs = []string{"2.5", "0.5", "0.125", "-7.25", "1.5", "100.25", "3.0", "
 var semStrs = []string{"b", "foo", "bar9", `"q r"`, `"it's"`, `"a,b"`, `""`, `"x y z"`, "été", `"Z"`, "a.b", `"(p)"`, `"5"`, `"o'k, then"`, `"%"`, `"under_score"`}
 var semPats = []string{"w*", "?x", "a*b?c", "f*o", "*a", "?", "b*", "*n*", "ab?d*", "a_b*", "x%*", `b\\*`, `x\*y*`, `q\?*`}
 
+func semStr() string {
+	if rng.Intn(3) == 0 {
+		return composedQuoted()
+	}
+	return pick(semStrs)
+}
+
 func semNum() string {
 	if rng.Intn(3) == 0 {
 		return pick(semDecs)
@@ -595,8 +663,11 @@ func semLeaf() *qt {
 	f := pick(semStrFields)
 	switch rng.Intn(9) {
 	case 0, 1:
-		return &qt{kind: "fv", toks: []string{f, ":", pick(semStrs)}}
+		return &qt{kind: "fv", toks: []string{f, ":", semStr()}}
 	case 2, 3:
+		if rng.Intn(3) == 0 {
+			return &qt{kind: "fv", toks: []string{f, ":", composedPattern()}}
+		}
 		return &qt{kind: "fv", toks: []string{f, ":", pick(semPats)}}
 	case 4:
 		return &qt{kind: "cmp", toks: []string{f, ":", pick([]string{">", "<"}), pick([]string{"", "="}), pick(semStrs)}}
@@ -615,9 +686,13 @@ func semLeaf() *qt {
 		return &qt{kind: "range", toks: []string{f, ":", "{", lo, "TO", hi, "}"}}
 	default:
 		n := 2 + rng.Intn(3)
-		var v *qt = &qt{kind: "term", toks: []string{pick(semStrs)}}
+		var v *qt = &qt{kind: "term", toks: []string{semStr()}}
 		for i := 1; i < n; i++ {
-			v = mk("or", v, &qt{kind: "term", toks: []string{pick(semStrs)}})
+			if rng.Intn(5) == 0 {
+				v = mk("or", v, &qt{kind: "term", toks: []string{v.lastTerm()}}) // a repeated value
+				continue
+			}
+			v = mk("or", v, &qt{kind: "term", toks: []string{semStr()}})
 		}
 		return &qt{kind: "fe", toks: []string{f, ":"}, kids: []*qt{v}}
 	}
@@ -629,9 +704,17 @@ func semTree(depth int) *qt {
 	}
 	switch rng.Intn(10) {
 	case 0, 1, 2:
-		return mk("and", semTree(depth-1), semTree(depth-1))
+		l := semTree(depth - 1)
+		if rng.Intn(5) == 0 {
+			return mk("and", l, variant(l))
+		}
+		return mk("and", l, semTree(depth-1))
 	case 3, 4, 5:
-		return mk("or", semTree(depth-1), semTree(depth-1))
+		l := semTree(depth - 1)
+		if rng.Intn(5) == 0 {
+			return mk("or", l, variant(l))
+		}
+		return mk("or", l, semTree(depth-1))
 	case 6:
 		return mk("not", semTree(depth-1))
 	case 7:
